@@ -5,7 +5,8 @@ import verifylib as V
 ASSUME = [
     "partial claim (DESIGN.md C18/§6): 'for all points' is an encode/decode law; covered are finite value classes (every field type, ints beyond 2^53 and MinInt64, strings with quote/comma/space/newline/unicode/backslash/equals, empty and awkward tag sets, three batch group shapes, empty batches) in both clock modes and three clock zeros, plus seeded sequences",
     "payloads are compared literally (type + decimal text) by TLC; time in whole seconds relative to an aligned epoch (sub-second precision handling is not explored)",
-    "the driver's clock never waits (data time only); the archive/zip layer of services/replay is not exercised, only the record format functions and the replay engines it calls",
+    "the driver's clock never waits (data time only; the service runs use the fast clock, whose zero is time.Now(): live-time outputs are rebased on the first delivered item and the specification demands the one constant shift for every other timestamp)",
+    "batch recordings reach the service as archive files in its directory (the on-disk form of a finished recording); recording batches from InfluxDB queries (startRecordBatch) is not exercised",
 ]
 
 
@@ -15,11 +16,25 @@ def run(sc, tier, seed):
     R.add_model(V.model_check(sc, "Replay", "ReplayMC.tla", "Replay_fixed.cfg", workers=2, timeout=900))
     # observation: the original tmax rule does not (repaired in /repo, see KNOWN_FINDINGS.txt)
     V.model_check(sc, "Replay", "ReplayMC.tla", "Replay_original.cfg", workers=2, timeout=900, expect_violation={"BatchRefines", "ConstantShift"})
+    # the replay of several batch sources as the code runs it (reader + replayer goroutine per source, every interleaving)
+    R.add_model(V.model_check(sc, "Replay", "ReplayProcMC.tla", "ReplayProc_quick.cfg" if tier == "quick" else "ReplayProc_thorough.cfg", workers=8, timeout=2400))
+    R.add_model(V.model_check(sc, "Replay", "ReplayProcMC.tla", "ReplayProc_same.cfg", workers=4, timeout=900))
+    R.add_model(V.model_check(sc, "Replay", "ReplayProcMC.tla", "ReplayProc_live.cfg", workers=4, timeout=900))
+    # observations = the two known findings at design level: sources are shifted independently; an empty batch keeps its tmax
+    V.model_check(sc, "Replay", "ReplayProcMC.tla", "ReplayProc_cross.cfg", workers=2, timeout=900, expect_violation={"CrossSourceShift"})
+    V.model_check(sc, "Replay", "ReplayProcMC.tla", "ReplayProc_chan.cfg", workers=2, timeout=900, expect_violation={"PerSourcePrefix"})
     out, meta = V.run_driver(sc, "c18", tier, seed, timeout=1500)
     R.add_meta(meta)
     val = V.validate_traces(sc, "Replay", "ReplayTrace.tla", "ReplayTrace.cfg", meta["trace_files"], parallel=4)
     R.states += val["states"]
     R.handle_validation(val, "replayed data differs from the recording")
+    # end to end through the replay service: POST /recordings/stream + WritePoints, archives adopted from the service
+    # directory, POST /replays into real stream/batch tasks (isolated TaskMaster), observed at the tasks' sinks
+    out2, meta2 = V.run_driver(sc, "c18svc", tier, seed, timeout=1500)
+    R.add_meta(meta2)
+    val2 = V.validate_traces(sc, "Replay", "ReplayTrace.tla", "ReplayTrace.cfg", meta2["trace_files"], parallel=4)
+    R.states += val2["states"]
+    R.handle_validation(val2, "data replayed through the replay service differs from the recording")
     return R.finish("exploration", ASSUME)
 
 
